@@ -64,7 +64,7 @@ func (g *gatedCase) fill() {
 		if s.L == "ins" {
 			g.Prog[s.P] = append(g.Prog[s.P], gEntry{ID: s.ID, Tab: s.T, Loc: s.Loc})
 		}
-		if s.P == "f" && s.L == "fl_check" {
+		if s.P == "f" && s.L == "call" {
 			g.Flushes++
 		}
 	}
@@ -115,6 +115,7 @@ func runGated(g gatedCase, run int, dir string, rng *rand.Rand) ([]map[string]an
 	if g.Flushes > 0 {
 		c.spawn("f", func(p *proc) {
 			for i := 0; i < g.Flushes; i++ {
+				c.gate("call") // the harness's own gate: Flush takes the mutex before its first hook gate
 				rec.Flush()
 			}
 		})
@@ -136,8 +137,16 @@ func runGated(g gatedCase, run int, dir string, rng *rand.Rand) ([]map[string]an
 	idle := 0
 	var idleSince time.Time
 	for {
-		c.refreshBlocked()
-		if !c.settle() {
+		// nobody runs: every goroutine is parked at a gate, finished, or waits for the recorder's mutex
+		// (a waiter that has just been handed the mutex is running again: wait for it as well)
+		settled := true
+		for {
+			c.refreshBlocked()
+			if settled = c.settle(); !settled || !c.refreshBlocked() {
+				break
+			}
+		}
+		if !settled {
 			res.Hang = true
 			c.abort()
 			closeDB(rec)
@@ -158,6 +167,7 @@ func runGated(g gatedCase, run int, dir string, rng *rand.Rand) ([]map[string]an
 				}
 				closing = true
 				c.spawn("c", func(p *proc) {
+					c.gate("call")
 					if err := rec.Close(); err != nil {
 						panic("Close returned " + err.Error())
 					}
